@@ -236,6 +236,7 @@ func (vc *VC) evalAddrOf(st *State, x *ast.UnaryExpr) Term {
 		v := vc.evalComposite(st, inner)
 		ref := vc.newRef(st)
 		vc.storeRef(st, ref, v.Sort, v.S)
+		vc.initGhostFields(st, Term{ref, ptrSort})
 		return Term{ref, ptrSort}
 	case *ast.Ident:
 		if v, ok := vc.info.ObjectOf(inner).(*types.Var); ok {
@@ -521,6 +522,9 @@ func (vc *VC) selectPath(st *State, base Term, recv types.Type, path []int, n as
 			stt := el.Underlying().(*types.Struct)
 			f := &ss.Fields[idx]
 			cur = vc.loadField(st, cur.S, ss, f)
+			if cur.Sort != nil && cur.Sort.Kind == KSlice {
+				vc.typeInvariant(st, cur) // every Go slice has a non-negative length, wherever it is stored
+			}
 			ct = stt.Field(idx).Type()
 			continue
 		}
@@ -634,7 +638,10 @@ func (u *Universe) ensureSliceSub(s *Sort) string {
 }
 
 func (vc *VC) evalComposite(st *State, x *ast.CompositeLit) Term {
-	t := vc.typeOf(x)
+	return vc.evalCompositeAs(st, x, vc.typeOf(x))
+}
+
+func (vc *VC) evalCompositeAs(st *State, x *ast.CompositeLit, t types.Type) Term {
 	s := vc.U.sortOf(t)
 	switch s.Kind {
 	case KStruct:
@@ -723,13 +730,14 @@ func (vc *VC) evalComposite(st *State, x *ast.CompositeLit) Term {
 // evalCompositeTyped handles elided types in nested composite literals.
 func (vc *VC) evalCompositeTyped(st *State, x *ast.CompositeLit, t types.Type) Term {
 	if p, ok := t.Underlying().(*types.Pointer); ok {
-		// &T{...} elided
-		v := vc.evalComposite(st, x)
+		// &T{...} elided (go/types records the pointer type for the literal)
+		v := vc.evalCompositeAs(st, x, p.Elem())
 		ref := vc.newRef(st)
 		vc.storeRef(st, ref, v.Sort, v.S)
+		vc.initGhostFields(st, Term{ref, vc.U.sortOf(p)})
 		return Term{ref, vc.U.sortOf(p)}
 	}
-	return vc.evalComposite(st, x)
+	return vc.evalCompositeAs(st, x, t)
 }
 
 func (vc *VC) evalTypeAssert(st *State, x *ast.TypeAssertExpr, commaOk bool) []Term {
